@@ -85,6 +85,7 @@ impl ModelChecker {
         S: Strategy,
     {
         let initial_state = self.system.get_state();
+        let initial_mode = self.system.event_ordering_mode();
         self.system.trace_handler.borrow_mut().push(LogEntry::McStarted {});
         preliminary_callback(&mut self.system);
         strategy.mark_visited(self.system.get_state());
@@ -92,6 +93,7 @@ impl ModelChecker {
         strategy.reset();
         // McSystem is always rolled back to the state before MC run
         self.system.set_state(initial_state);
+        self.system.set_event_ordering_mode(initial_mode);
         res
     }
 
